@@ -53,11 +53,40 @@ theorem inherit_from_non_object_is_config_error (fuel : Nat) (b : Bool) :
       .error (.other "Inherited field type is not a field type object") := by
   simp [inheritVal, modKeysS, modKeyS, ftPropNames, membersKey, kvGet, kvHas, bind, Except.bind]
 
+/-- a member node that is not a single-property mapping (`{}`, two properties, a scalar) is left as it is by member
+    normalisation and by the alias / inheritance passes over the extra members, for the schema stage to report (it
+    used to raise `IndexError`: finding F30) -/
+theorem malformed_member_nodes_are_skipped (fuel : Nat) (junk : Y) (h : ∀ n v, junk ≠ .map [(n, v)]) (rest : List Y) :
+    normMembers (fuel + 1) (junk :: rest) =
+      (match normMembers (fuel + 1) rest with
+       | .ok r => .ok (junk :: r)
+       | .error e => .error e) := by
+  have key : ∀ (f : Y → FR Y), f junk = .ok junk → mapSeq f (junk :: rest) =
+      (match mapSeq f rest with | .ok r => .ok (junk :: r) | .error e => .error e) := by
+    intro f hf
+    simp only [mapSeq, hf, bind, Except.bind]
+    cases mapSeq f rest <;> rfl
+  simp only [normMembers]
+  apply key
+  cases junk with
+  | map kvs =>
+    cases kvs with
+    | nil => rfl
+    | cons kv r =>
+      obtain ⟨n, v⟩ := kv
+      cases r with
+      | nil => exact absurd rfl (h n v)
+      | cons kv2 r2 => rfl
+  | _ => rfl
+
 /-- the model of the loader always answers -/
 theorem model_verdict_total (store : Store) (W : World) (fuel : Nat) (cfg : KVs) :
     ∃ v : Verdict, verdictOf (load3 store W fuel cfg) = v := ⟨_, rfl⟩
 
 /-! ### non-vacuity -/
+example : (normMembers 3 [.map [], .str "junk", .map [("a", .int 1), ("b", .int 2)], .map [("x", .str "u8")]]).isOkWith
+    [.map [], .str "junk", .map [("a", .int 1), ("b", .int 2)], .map [("x", .map [("field-type", .str "u8")])]] = true := by
+  decide +kernel
 
 def c10W : World := { dirs := [[("a.yaml", .map [("$include", .str "b.yaml")]), ("b.yaml", .map [("$include", .str "a.yaml")])]] }
 
@@ -76,3 +105,4 @@ end BVM
 #print axioms BVM.null_members_are_skipped
 #print axioms BVM.inherit_from_non_object_is_config_error
 #print axioms BVM.model_verdict_total
+#print axioms BVM.malformed_member_nodes_are_skipped
